@@ -3,7 +3,7 @@
 
    Kind "proto":   every case of RemoteJob.tla with 1..MaxN jobs (array groups of >= 2, single jobs
                    of <= 2), every outcome per element (return / raise / raise something that does
-                   not pickle), at most one stale file (an old error, a valid old output, an
+                   not pickle / raise something whose pickle does not load), at most one stale file (an old error, a valid old output, an
                    invalid old output) and the --no-cache flag; containers and parses in every
                    order, MaxRuns containers per job.  Checked exhaustively with the history
                    hidden by the VIEW; with -simulate the history of each random behaviour is
@@ -18,7 +18,7 @@ EXTENDS RemoteJob, Json
 CONSTANTS MaxN, MaxSeg, Kinds,     \* Kinds \subseteq {"proto", "name", "reunite"}
           SimPick                  \* TRUE (with -simulate): draw the case at random instead of branching on it
 
-Behs == {"ok", "raise", "unp"}
+Behs == {"ok", "raise", "unp", "rt"}
 Stales(n, beh) ==
   {[i \in 1..n |-> "none"]}
   \cup {[i \in 1..n |-> IF i = j THEN s ELSE "none"] :
@@ -77,6 +77,7 @@ View == <<vars, kind, x>>
 
 \* the properties of RemoteJob.tla over the generator's runs
 GOutcomeOK == kind = "proto" => OutcomeOK
+GOutcomeUnlessDev == kind = "proto" => OutcomeUnlessDev
 GOneOutcomeFile == kind = "proto" => OneOutcomeFile
 GIsolation ==
   [][(kind = "proto" /\ act'[1] = "work") =>
